@@ -295,6 +295,11 @@ def cases_for(op, seed):
             prog = "0,%d,%d,N;1,1,%d,N;0,1,65,N;1,1,%d,N" % (h, d, tgt, tgt)
             yield ("opt.cmp\t%s" % prog, ("selfeq",), {"op": "run unoptimised vs optimised level 2", "commands(type,syllables,dots,area)": prog,
                                                        "note": "prints U+%04X then 'A' on stack %d" % (h * d, tgt)})
+        # an output stack selected by 흑, then plain pushes (형) onto it: the order of the output must be kept
+        for (tgt, a, b) in ((1, 48, 56), (2, 65, 2), (1, 2, 100), (2, 200, 33)):
+            prog = "0,1,%d,N;5,1,%d,N;0,1,%d,N;0,1,%d,N" % (a, tgt, b, a)
+            yield ("opt.cmp\t%s" % prog, ("selfeq",), {"op": "run unoptimised vs optimised level 2", "commands(type,syllables,dots,area)": prog,
+                                                       "note": "흑 selects output stack %d, then 형 pushes onto it" % tgt})
         # many stacks, some only written to, some selected and read; two of them printed at the end
         for _ in range(250):
             n = rnd.randint(3, 9)
